@@ -6,6 +6,7 @@ import MicroHttp.Props.Tables
 #print axioms MicroHttp.C17.addRoute_fresh
 #print axioms MicroHttp.C17.handle_spec
 #print axioms MicroHttp.Tables.no_shared_state
+#print axioms MicroHttp.Tables.no_interior_mutability
 #print axioms MicroHttp.Tables.method_to_str
 #print axioms MicroHttp.Tables.router_add_key
 #print axioms MicroHttp.Tables.router_add
